@@ -9,7 +9,7 @@ from contracts import c14_paths
 def _report(ctx, refuted):
     for name, model, detail, function in refuted:
         ctx.violation(name, {"function": function, "model": model, "snippet": None, "replay_result": "executed on the current source"},
-                      "symbolic" not in str(detail), what=((detail or "")[:180] + " | " + str(model)[:200]))
+                      ("executed" in name) or name.startswith(("hive_path", "part_id")), what=((detail or "")[:180] + " | " + str(model)[:200]))
 
 
 def p_hive_convention(ctx):
@@ -24,7 +24,14 @@ def p_part_id(ctx):
     _report(ctx, c14_paths.check_conventions(ctx, {"part_id"}))
 
 
+def p_paths_to_cats_executed(ctx):
+    _report(ctx, c14_paths.check_conventions(ctx, {"paths_to_cats"}))
+
+
 def p_path_parsing(ctx):
     from ._paths import p_paths
     p_hive_convention(ctx)
-    p_paths(ctx, families=("paths_to_cats", "strip_path_tail", "read_row_group"))
+    p_paths_to_cats_executed(ctx)
+    # the scenarios that are PROVED on the unchanged tree (the refuted-known ones are C08 findings and stay with C08)
+    p_paths(ctx, families=("paths_to_cats[hive dataset, metadata]", "paths_to_cats[hive dataset, no metadata]", "paths_to_cats[drill dataset, no metadata]",
+                           "strip_path_tail", "read_row_group[hive]", "read_row_group[drill, no metadata]"))
